@@ -5,6 +5,7 @@ import (
 	"go/token"
 	"go/types"
 	"net/http"
+	"os"
 	"sort"
 	"strings"
 
@@ -27,13 +28,14 @@ type Analysis struct {
 	P *Prog
 	A *Anchors
 
-	atomCache  map[ssa.Value]*atomRes
-	classCache map[ssa.Value]string
-	maySum     map[string]map[*ssa.Function]int8
-	mustSum    map[string]map[*ssa.Function]int8
-	respKind   map[ssa.Value]map[string]bool
-	statusVals map[*ssa.Global][2]string
-	statusMemo map[*ssa.Function][]string // statusesAlwaysApplied (per analysis: mutants run in parallel)
+	atomCache   map[ssa.Value]*atomRes
+	classCache  map[ssa.Value]string
+	maySum      map[string]map[*ssa.Function]int8
+	mustSum     map[string]map[*ssa.Function]int8
+	respKind    map[ssa.Value]map[string]bool
+	statusVals  map[*ssa.Global][2]string
+	statusMemo  map[*ssa.Function][]string // statusesAlwaysApplied (per analysis: mutants run in parallel)
+	helperDepth int                        // nesting of boolean-helper evaluation in BoolUnder
 }
 
 type atomRes struct {
@@ -576,7 +578,27 @@ func (an *Analysis) ageLifeAtom(x *ssa.BinOp) (*Atom, bool) {
 // exceedsAtom: `age OP <decoded request directive value>` with age derived from the freshness record's age (or the
 // current-age function): the atom "<cls>.<directive>.exceeded" (age >= value; `>` is folded into it).
 func (an *Analysis) exceedsAtom(x *ssa.BinOp) (*Atom, bool) {
-	dirVal := func(v ssa.Value) (string, bool) {
+	var dirVal func(v ssa.Value) (string, bool)
+	dirVal = func(v ssa.Value) (string, bool) {
+		if p, isP := an.canon(v).(*ssa.Parameter); isP {
+			// a value handed to a local helper: every call site passes the decoded value of the same directive
+			fn := p.Parent()
+			idx := paramIndex(fn, p)
+			callers := an.P.Callers(fn)
+			name := ""
+			for _, cs := range callers {
+				arg := argForParam(cs.Instr.Common(), fn, idx)
+				if arg == nil {
+					return "", false
+				}
+				n, ok := dirVal(arg)
+				if !ok || name != "" && n != name {
+					return "", false
+				}
+				name = n
+			}
+			return name, name != ""
+		}
 		ex, ok := an.canon(v).(*ssa.Extract)
 		if !ok || ex.Index != 0 {
 			return "", false
@@ -608,6 +630,10 @@ func (an *Analysis) exceedsAtom(x *ssa.BinOp) (*Atom, bool) {
 			if fa, ok := y.(*ssa.FieldAddr); ok && an.A.FreshT != nil && isPtrToNamed(fa.X.Type(), an.A.FreshT) && fa.Field == an.A.FreshAge {
 				hit = true
 			}
+			// a member of an age record (its value or its timestamp), whatever the record was reached through
+			if fa, ok := y.(*ssa.FieldAddr); ok && an.A.AgeT != nil && isPtrToNamed(fa.X.Type(), an.A.AgeT) {
+				hit = true
+			}
 			if c, ok := y.(*ssa.Call); ok && an.A.F("currentAge") != nil && c.Call.StaticCallee() == an.A.F("currentAge") {
 				hit = true
 			}
@@ -615,6 +641,41 @@ func (an *Analysis) exceedsAtom(x *ssa.BinOp) (*Atom, bool) {
 		})
 		return hit
 	}
+	// a value computed by a local function from age values (SaturatingAdd(age, resident)) is an age as well; the
+	// backward trace enters such a function through its result and stops at its parameters, so the arguments are
+	// looked at here
+	isAge0 := isAge
+	var isAgeDeep func(v ssa.Value, depth int) bool
+	isAgeDeep = func(v ssa.Value, depth int) bool {
+		if isAge0(v) {
+			return true
+		}
+		if u, ok := v.(*ssa.UnOp); ok {
+			if fa, ok := u.X.(*ssa.FieldAddr); ok {
+				if an.A.AgeT != nil && isPtrToNamed(fa.X.Type(), an.A.AgeT) {
+					return true
+				}
+				if an.A.FreshT != nil && isPtrToNamed(fa.X.Type(), an.A.FreshT) && fa.Field == an.A.FreshAge {
+					return true
+				}
+			}
+		}
+		if depth > 2 {
+			return false
+		}
+		if c, ok := v.(*ssa.Call); ok && len(an.P.RepoCallees(c)) > 0 {
+			for _, a := range c.Call.Args {
+				if typeIs(a.Type(), "time", "Duration") && isAgeDeep(a, depth+1) {
+					return true
+				}
+			}
+		}
+		if b, ok := v.(*ssa.BinOp); ok {
+			return isAgeDeep(b.X, depth+1) || isAgeDeep(b.Y, depth+1)
+		}
+		return false
+	}
+	isAge = func(v ssa.Value) bool { return isAgeDeep(v, 0) }
 	op := x.Op
 	l, r := x.X, x.Y
 	name, ok := dirVal(r)
@@ -624,6 +685,9 @@ func (an *Analysis) exceedsAtom(x *ssa.BinOp) (*Atom, bool) {
 		}
 		l, r = r, l
 		op = swapTok(op)
+	}
+	if os.Getenv("HCV_DEBUG") != "" {
+		fmt.Fprintf(os.Stderr, "exceedsAtom %v: name=%q isAge=%v\n", x, name, isAge(l))
 	}
 	if name != "rq.max-age" || !isAge(l) {
 		return nil, false
